@@ -170,6 +170,7 @@ impl Check for C16C {
             expand: stage != format!("bfs{}", depth(tier) - 1),
             order_queries: &[],
             warm_queries: &[],
+            max_depth: vec![],
         })
     }
     fn meta(&self) -> Meta {
